@@ -211,6 +211,18 @@ CLAIMED = {
                 "numpy/scipy purity, soundness of the AST pass",
         "technique": "generated facts as computed premises + interaction-tree model with invariant proof in Coq; deterministic thread scheduler as oracle",
     },
+    "C19": {
+        "text": "Coq theorems over hand-written templates of the nine timed instrument definitions plus OLCI/SLSTR, for every scan count and every position "
+                "selection: shapes, per-scan equality, swath bounds, zero along-track angles, antisymmetry, strictly increasing integer-ns times, "
+                "line-before-next, scan period within 1 ns after truncation, subset = columns of the full geometry. A second, bit-exact binary64 "
+                "(PrimFloat) instance of the same formulas is proved within 1 ns of the exact one, period within 2 ns, monotone and line-ordered, for "
+                "scans 0..50 by kernel-checked sweep (bound in the statement)",
+        "design_ref": "DESIGN.md 5/C19",
+        "note": "template-equals-code is a Coq-evaluated correspondence run (angles 1e-12 rad, nanoseconds exactly), sampled not proved; binary64 results bounded "
+                "to 50 scans; default options only; the angle floats are not modelled. Trusted: Coq kernel with primitive floats/Int63 (listed under the three "
+                "B64 theorems), numpy's truncating float x timedelta64, doc-transcribed limits in the oracle",
+        "technique": "hand-written executable Gallina templates parameterised over an arithmetic (Q / PrimFloat); lra/lia over Q + forallb sweeps; correspondence via vm_compute",
+    },
     "C08": {
         "text": "Coq theorems (no axioms) by complete case analysis over a hand-written (container, dtype) model of every numeric entry point: 14 input kinds x "
                 "10 time kinds return the documented kind and never raise; the tick->day and tick->minute conversions as coded give identical binary64 bits "
